@@ -6,13 +6,13 @@
 From Coq Require Import Lia.
 From AV Require Import Base.Bytes Base.Outcome Hash.HashModel Tree.Heap Tree.Ops Tree.Script Tree.Inv Tree.InvProofs
   Tree.Index Tree.Refs Tree.IndexProofsBase Tree.IndexProofsBridge Tree.IndexProofsTiny
-  Tree.Follow Tree.FollowProofsRename.
+  Tree.Follow Tree.FollowProofsRename Tree.FollowProofsMove.
 Import Tiny.
 Open Scope list_scope.
 Open Scope N_scope.
 
-Definition runs := run_ops tiny tiny_el tiny_en tiny_check_fn LATEST [].
-Definition rename h nn := e_set_item_name tiny tiny_check_fn LATEST h nn.
+Notation runs := (run_ops tiny tiny_el tiny_en tiny_check_fn LATEST []).
+Notation rename := (e_set_item_name tiny tiny_check_fn LATEST).
 
 Definition sR : list op :=
   setup ++ [OpCreateNamed 1 nPKG (BS "p1"); OpCreateSub 2 nELEMENTS; OpCreateNamed 4 nSYSTEM (BS "S");
@@ -65,4 +65,33 @@ Proof.
   - intros (x & xm & p & Hxm & Hr & Hp). vm_compute in Hxm. injection Hxm as <-.
     vm_compute in Hr. injection Hr as <-. vm_compute in Hp. discriminate Hp.
   - vm_compute. discriminate.
+Qed.
+
+(* ---------- move within one model, with renaming by make_unique_item_name ----------
+   sM = sR plus a second SYSTEM named S (17) in /p10.  Moving /p1/S (5) into ELEMENTS (9) of /p10 collides with it: the
+   moved element becomes S_1, reference 13 follows to "/p10/S_1" and still designates element 5; the dangling
+   reference "/p1/zzz" is NOT rewritten by a move (only keys that are paths of elements of the subtree are). *)
+Definition sM : list op := sR ++ [OpCreateNamed 9 nSYSTEM (BS "S")].
+Notation move_here := (e_move_element_here tiny tiny_en tiny_check_fn LATEST).
+
+Lemma sM_inv : exists w, runs sM empty_world = Val w /\ Inv06 tiny tiny_check_fn w.
+Proof.
+  eexists. split; [vm_compute; reflexivity|].
+  eapply (C04_C05_reachable_partial tiny tiny_el tiny_en tiny_check_fn LATEST [] tiny_tables_ok sM);
+    vm_compute; reflexivity.
+Qed.
+
+Example move_follow_example :
+  exists w w', runs sM empty_world = Val w /\ Inv06 tiny tiny_check_fn w /\
+    move_here 9 5 w = Val (OK 5, w') /\
+    model_of 9 w = Val (OK 0, w) /\ model_of 5 w = Val (OK 0, w) /\ identifiable tiny w 5 = true /\
+    texts w  = [Some (BS "/p1"); Some (BS "/p1/S");    Some (BS "/p10"); Some (BS "/p1/zzz"); Some (BS "/q")] /\
+    texts w' = [Some (BS "/p1"); Some (BS "/p10/S_1"); Some (BS "/p10"); Some (BS "/p1/zzz"); Some (BS "/q")] /\
+    assoc_get (BS "/p1/S") (idents_of w 0) = Some 5 /\ assoc_get (BS "/p10/S_1") (idents_of w' 0) = Some 5 /\
+    assoc_get (BS "/p10/S") (idents_of w' 0) = Some 17 /\ assoc_get (BS "/p1/S") (idents_of w' 0) = None.
+Proof.
+  destruct sM_inv as (w & Hw & HI). exists w. eexists.
+  split; [exact Hw|]. split; [exact HI|].
+  vm_compute in Hw. injection Hw as <-.
+  split; [vm_compute; reflexivity|]. vm_compute. repeat split.
 Qed.
